@@ -543,7 +543,8 @@ def falsify(ctx, hints):
                 ("underlay", lambda: ir.underlay(a, b)), ("add", lambda: a + b), ("neg", lambda: -a),
                 ("mov_sum", lambda: ir.mov_sum(a, -2)), ("fill_missing", lambda: ir.fill_missing(a, "previous")),
                 ("diff", lambda: ir.diff(a)), ("clip", lambda: ir.clip(a, a.start + 1, None)) if hasattr(ir, "clip") else ("copy2", lambda: a.copy()),
-                ("hstack", lambda: a & b), ("call", lambda: a(a.span)),
+                ("hstack", lambda: a & b), ("call", lambda: a(a.span)), ("index0", lambda: a[0]), ("index-1", lambda: a[-1]),
+                ("extrapolate", lambda: ir.extrapolate(a, [0.5], [a.end + 1, a.end + 2])),
             ]
             for nm, fn in funcs:
                 sa0, sb0 = _state(a), _state(b)
@@ -562,6 +563,30 @@ def falsify(ctx, hints):
                 if not _same_state(_state(b), sb0):
                     add(f"isolation:{nm}:method-modifies-argument", f"method {nm} modifies its argument, not only the receiver", inp,
                         list(b.data.shape), list(sb0[1].shape), f"a.{nm}(b)")
+            # extrapolation follows the autoregression x[t] = c + sum_k rho_k x[t-k] (any order), also in logs
+            p_ = rng.randint(1, 3)
+            rho = [round(rng.uniform(-0.6, 0.6), 3) for _ in range(p_)]
+            c_ = round(rng.uniform(-1, 1), 3)
+            base_rows = [[abs(_val(rng)) + 0.5 for _ in range(sa["nv"])] for _ in range(p_ + rng.randint(0, 3))]
+            sx = {"freq": freq, "start": sa["start"], "nv": sa["nv"], "rows": base_rows}
+            x0 = sc.mk_series(sx)
+            h = rng.randint(1, 5)
+            for use_log in (False, True):
+                span = [x0.end + i for i in range(1, h + 1)]
+                xe = ir.extrapolate(x0, rho, span, intercept=c_, log=use_log)
+                full = np.asarray(xe.get_data(ir.Span(x0.start, x0.end + h)), dtype=float)
+                w = np.log(full) if use_log else full
+                ok = True
+                for i in range(len(base_rows), len(base_rows) + h):
+                    want = c_ + sum(rho[k] * w[i - 1 - k] for k in range(p_))
+                    if not np.all(np.abs(w[i] - want) <= 1e-9 * (1 + np.abs(want))):
+                        ok = False
+                info["map_checks"] += 1
+                if not ok or not _eq(full[:len(base_rows)], np.array(base_rows)):
+                    add(f"extrapolate:ar{p_}" + (":log" if use_log else ""),
+                        "extrapolated values do not follow x[t] = c + sum_k rho_k x[t-k] from the observed initial values",
+                        {"series": sx, "ar_coeffs": rho, "intercept": c_, "log": use_log, "periods_ahead": h}, full.tolist(), None,
+                        "irispie.extrapolate(x, ar_coeffs, span, intercept=c, log=...)")
         except Exception as e:  # noqa
             add(f"raises:{type(e).__name__}", f"public operation raises {type(e).__name__}: {e}"[:200], inp)
         if len(fails) > 30:
